@@ -112,8 +112,16 @@ func genFullStrategy(r *rand.Rand) edsv1.ExtendedDaemonSetSpecStrategy {
 		c.Duration = genDurPtr(r, true)
 		c.NoRestartsDuration = genDurPtr(r, true)
 		c.ValidationMode = pick(r, "", edsv1.ExtendedDaemonSetSpecStrategyCanaryValidationModeAuto, edsv1.ExtendedDaemonSetSpecStrategyCanaryValidationModeManual)
-		if r.Intn(2) == 0 {
+		switch r.Intn(6) {
+		case 0, 1:
 			c.NodeSelector = &metav1.LabelSelector{MatchLabels: map[string]string{"zone": "a"}}
+		case 2: // expressions only (MatchLabels nil)
+			c.NodeSelector = &metav1.LabelSelector{MatchExpressions: []metav1.LabelSelectorRequirement{{Key: "zone", Operator: metav1.LabelSelectorOpIn, Values: []string{"a", "b"}}}}
+		case 3:
+			c.NodeSelector = &metav1.LabelSelector{MatchLabels: map[string]string{"disk": "ssd"},
+				MatchExpressions: []metav1.LabelSelectorRequirement{{Key: "gen", Operator: metav1.LabelSelectorOpExists}}}
+		case 4: // present but empty
+			c.NodeSelector = &metav1.LabelSelector{}
 		}
 		if r.Intn(4) == 0 {
 			c.NodeAntiAffinityKeys = []string{"zone"}
